@@ -34,6 +34,9 @@ Crafted == {
         F("a", "V", "QWidget", <<>>, <<"U">>), F("a", "W", "QWidget", <<>>, <<"Nope">>)>>),
   \* a component whose super is only visible through an import that does not exist
   Lay(<<F("a", "M", "QWidget", <<"b">>, <<"C">>), F("b", "C", "A", <<"nodir">>, <<>>), F("a", "A", "QLabel", <<>>, <<>>)>>),
+  \* a component wrapping an imported component of the same name, used as the root of a further component: two distinct classes named B are ancestors
+  Lay(<<F("a", "M", "QWidget", <<>>, <<"A", "B">>), F("a", "A", "B", <<>>, <<>>), F("a", "B", "B", <<"b">>, <<>>), F("b", "B", "QPushButton", <<>>, <<>>)>>),
+  Lay(<<F("a", "M", "A", <<>>, <<"A">>), F("a", "A", "D", <<"a/s">>, <<>>), F("a/s", "D", "D", <<"b">>, <<>>), F("b", "D", "D", <<"a">>, <<>>), F("a", "D", "QLabel", <<>>, <<>>)>>),
   \* root object of the document is itself a component; same class as root and child
   Lay(<<F("a", "M", "A", <<>>, <<"A", "B">>), F("a", "A", "B", <<>>, <<>>), F("a", "B", "QWidget", <<>>, <<>>)>>) }
 \* ---- random layouts ---------------------------------------------------------------------------------
